@@ -153,7 +153,10 @@ inline std::string hexd(double d) { // exact, and readable for the dyadic values
     return b;
 }
 inline double &weightScale() { static double s = 0.25; return s; } // always a power of two
-inline double weightOf(long v) { return (double)v * weightScale(); }
+// Optional explicit weight table (weights whose sums are NOT exact, e.g. 0.1, 0.7, 1000000.3): then the
+// model value is an index into it, getTotalWeight is not compared and is left out of the key.
+inline std::vector<double> &weightTable() { static std::vector<double> t; return t; }
+inline double weightOf(long v) { return weightTable().empty() ? (double)v * weightScale() : weightTable()[(size_t)v]; }
 
 // ------------------------------------------------------------------------------------- model
 struct Ent {
@@ -534,7 +537,7 @@ template <class G> std::string keyOf(const G &g, bool complete) {
     } else {
         char buf[64];
         snprintf(buf, sizeof buf, "%La", (long double)g.getTotalWeight());
-        o << "|" << buf << "|";
+        o << "|" << (weightTable().empty() ? buf : "~") << "|";
         for (VertexIndex i = 0; i < n; ++i)
             for (VertexIndex j = 0; j < n; ++j) {
                 if (!T::directed && j < i) continue;
@@ -814,7 +817,7 @@ template <class G> void checkState(const G &g, const Model &m, ClauseSink &sink)
     if constexpr (T::fam == WEIGHTED) {
         long total4 = 0;
         for (auto &p : m.e) total4 += (long)p.second.copies * p.second.v;
-        if (!anyMixed)
+        if (!anyMixed && weightTable().empty())
             guard("totalWeight", "getTotalWeight", [&] {
                 char gb[64], wb[64];
                 snprintf(gb, sizeof gb, "%La", (long double)g.getTotalWeight());
